@@ -82,6 +82,15 @@ func newC09fn(r *Run, name string, vparam int, post map[string]postSummary) *c09
 		return nil
 	}
 	c := &c09fn{fn: fn, e: newWEng(r, fn, post), name: short(name)}
+	// preconditions are declared before any value is normalised (conversions are memoised)
+	for _, p := range fn.Params {
+		if strings.HasSuffix(p.Type().String(), "tls.fieldInfo") {
+			c.e.declareUpper(r.D.D(p)+".count", 8) // documented tag grammar: sizes 1..8 (C09.R9 checks the writers of count)
+		}
+	}
+	if name == "tls.parseField" {
+		c.e.declareNonneg(fn.Params[2]) // precondition 0 ≤ initOffset ≤ len(data), checked at every call site (R5)
+	}
 	if vparam >= 0 {
 		c.regs = caseRegions(fn, fn.Params[vparam])
 	}
